@@ -308,8 +308,10 @@ def write_evidence(mod, ctx, acc, extra_cov=None, violations=0):
         "violations": violations,
         "repo": os.environ.get("VERIF_REPO") or "/repo",
     }
-    os.makedirs(os.path.join(VERIF, "evidence"), exist_ok=True)
-    path = os.path.join(VERIF, "evidence", mod.ID + ".json")
+    # evidence/ holds runs against /repo only; a run against another checkout (VERIF_REPO, used for seeded changes) is kept apart
+    sub = "evidence" if not os.environ.get("VERIF_REPO") else os.path.join("scratch", "evidence-other-checkout")
+    os.makedirs(os.path.join(VERIF, sub), exist_ok=True)
+    path = os.path.join(VERIF, sub, mod.ID + ".json")
     tmp = path + ".tmp.%d" % os.getpid()
     with open(tmp, "w") as f:
         json.dump(doc, f, indent=1, sort_keys=False)
